@@ -462,10 +462,10 @@ def run(ctx: Ctx):
     ctx.extra["behaviours"] = len(behs)
     ctx.extra["exact"] = exact_replay(ctx, behs, rng)
     # the same behaviours with a companion event in the agent's queue (the spec's numbers stay the oracle): every 3rd
-    # behaviour whose burn lasts at least two ticks
+    # (4th in quick) behaviour whose burn lasts at least two ticks
     long_burns = [b for b in behs if b["burn"]["kind"] != "none" and b["burn"]["te"] - b["burn"]["ts"] >= 2]
-    ctx.extra["exact_zero_impulse_mid_burn"] = exact_replay(ctx, long_burns[::3 if ctx.quick else 2], rng, variant="impulse")
-    ctx.extra["exact_back_to_back_burns"] = exact_replay(ctx, long_burns[1::3 if ctx.quick else 2], rng, variant="split")
+    ctx.extra["exact_zero_impulse_mid_burn"] = exact_replay(ctx, long_burns[::4 if ctx.quick else 2], rng, variant="impulse")
+    ctx.extra["exact_back_to_back_burns"] = exact_replay(ctx, long_burns[1::4 if ctx.quick else 2], rng, variant="split")
     # burns that start at the scenario start itself (tick 0): a handful, short patience - on a tree where the restart
     # loop cannot leave scenario time 0 every one of them would hang
     _, zero = K.run_spec(ctx, "zero", "Kinematics.tla Mode=steps, burns starting at scenario time 0", invs=INV15, Horizon=6,
